@@ -15,7 +15,7 @@ RULE = (
 ASSUMPTIONS = ["handlers are instantaneous, so requests are processed one at a time in arrival order", "MAX_TRANSMIT_WAIT of the default TransportTuning is the state lifetime (read at run time)"]
 REQUIRED_MONITORS = {"response_matches_model": 2000, "handler_body": 300, "continue_echo": 500, "incomplete_408": 100, "block2_slice": 300, "expiry": 40, "timeoutdict_tick": 20}
 
-UP = ["inorder", "inorder", "restart", "repeat", "skip", "lastfirst", "wrongsize", "oversize-final", "unknown", "szx-change"]
+UP = ["inorder", "inorder", "restart", "restart-single", "repeat", "skip", "lastfirst", "wrongsize", "oversize-final", "unknown", "szx-change"]
 DOWN = ["none", "inorder", "inorder", "beyond", "szx-change", "repeat", "skip"]
 GAPS = [0.0, 0.0, 0.0, 0.0, 10.0, 92.0, 94.0, 140.0, 185.0, 187.5, 400.0]
 
@@ -58,6 +58,12 @@ def gen_flow(r, fid):
         if up == "restart" and last >= 1:
             k = r.randrange(1, last + 1)
             seq = [blk(i) for i in range(k)] + seq
+        elif up == "restart-single" and last >= 1:
+            # an interrupted upload, then a complete single-block request for the same key (which replaces the
+            # assembly), then the rest of the interrupted upload (which no longer extends anything)
+            k = r.randrange(1, last + 1)
+            single = {"b1": (0, False, szx), "payload": pattern(b"S%d-" % fid, r.choice([1, size // 2, size - 1, size]))}
+            seq = [blk(i) for i in range(k)] + [single] + [blk(i) for i in range(k, last + 1)]
         elif up == "repeat" and last >= 0:
             k = r.randrange(0, last + 1)
             seq = seq[: k + 1] + [blk(k)] + seq[k + 1 :]
